@@ -26,7 +26,7 @@ SPEC = {
                     "reference reader written from tucan.ebnf + Hill's rule; its notion of the language is cross-checked against the EBNF element order at start-up"],
     "monitors_required": ["c10_differential", "ebnf_crosscheck"],
     "required_obs": {"quick": ["accepted", "reject_reason/lexer", "reject_reason/syntax", "reject_reason/index", "reject_reason/self-loop", "reject_reason/duplicate-attribute",
-                               "cov_all_118_symbols_accepted", "cov_mutation/insert", "cov_mutation/delete", "cov_mutation/replace", "cov_mutation/transpose", "cov_boundary/boundary:count-one", "cov_boundary/boundary:n+1-first", "cov_boundary/boundary:dup-attr-same", "cov_boundary/boundary:carbon-late", "cov_sentence_with_100_or_more_atoms"]},
+                               "cov_all_118_symbols_accepted", "cov_mutation/insert", "cov_mutation/delete", "cov_mutation/replace", "cov_mutation/transpose", "cov_boundary/boundary:count-one", "cov_boundary/boundary:n+1-first", "cov_boundary/boundary:dup-attr-same", "cov_boundary/boundary:carbon-late", "cov_sentence_with_100_or_more_atoms", "cov_big_sentence_boundary_probes"]},
     "watchdog_s": {"quick": 900, "thorough": 5400},
 }
 PLAN = {"quick": {"sentences": 6000, "mut_per": 10, "exhaustive_sentences": 0},
@@ -79,8 +79,17 @@ def run(ctx):
         elif k % 25 == 7:
             s = GS.random_sentence(rng, 400)  # three-digit counts and indices (99/100/101 boundaries)
             try:
-                if sum(c for _, c in tg.recognise(s).formula_items) >= 100:
+                g_ = tg.recognise(s)
+                n_ = sum(c for _, c in g_.formula_items)
+                if n_ >= 100:
                     ctx.count("cov_sentence_with_100_or_more_atoms")
+                    # boundary classes at LARGE indices (two- and three-digit literals, values beyond small-integer ranges)
+                    for i_ in sorted({n_, n_ - 1, 99, 100, 101, 255, 256, 257, 258, 300} & set(range(1, n_ + 1))):
+                        feed(ctx, GS.emit(g_.formula_items, g_.tuples_raw + [(i_, i_)], g_.attr_blocks_raw), "big:selfbond")
+                        feed(ctx, GS.emit(g_.formula_items, g_.tuples_raw, g_.attr_blocks_raw + [(i_, [("mass", 2)]), (i_, [("mass", 2)])]), "big:dup-attr")
+                        feed(ctx, GS.emit(g_.formula_items, [(i_, max(1, i_ - 1))] + g_.tuples_raw, [(i_, [("rad", 300), ("mass", 257)])]), "big:valid-high-index")
+                    feed(ctx, GS.emit(g_.formula_items, [(n_ + 1, 1)] + g_.tuples_raw, g_.attr_blocks_raw), "big:n+1")
+                    ctx.count("cov_big_sentence_boundary_probes")
             except tg.Reject:
                 pass
         else:
